@@ -152,6 +152,59 @@ template<uint32_t KIND, bool A_FIRST, uint32_t CNT> static void replay_two_nodes
 #define H_REPLAY(K, C) HARNESS h_replay_k##K##_a() { replay_two_nodes<K, true, C>(); } HARNESS h_replay_k##K##_b() { replay_two_nodes<K, false, 6 - C>(); }
 H_REPLAY(0, 0) H_REPLAY(1, 1) H_REPLAY(2, 2) H_REPLAY(3, 3) H_REPLAY(4, 4) H_REPLAY(5, 5)
 
+// H1c (replay of consecutive instructions): operand slots of one instruction never leak into the next one's replay.
+static Raw<InstNodeWithOperands<6>> st_inst2;
+template<uint32_t CNT_A, uint32_t CNT_B> static void replay_two_insts() {
+  BaseBuilder b; nrecs = 0;
+  Operand_ oa[6], ob[6];
+  InstNode* A = new(Support::PlacementNew{&st_inst.v}) InstNodeWithOperands<6>(nondet_u32(), InstOptions::kNone, CNT_A);
+  InstNode* B = new(Support::PlacementNew{&st_inst2.v}) InstNodeWithOperands<6>(nondet_u32(), InstOptions::kNone, CNT_B);
+  for (uint32_t i = 0; i < 6; i++) { oa[i].reset(); ob[i].reset(); if (i < CNT_A) { any_op(oa[i]); A->set_op(i, oa[i]); } if (i < CNT_B) { any_op(ob[i]); B->set_op(i, ob[i]); } }
+  A->reset_op_range(CNT_A, 6); B->reset_op_range(CNT_B, 6);
+  A->_prev = nullptr; A->_next = B; B->_prev = A; B->_next = nullptr;
+  b._node_list.reset(A, B);
+  Recorder r;
+  V_ASSERT(b.BaseBuilder::serialize_to(&r) == Error::kOk && nrecs == 2, "two _emit calls replayed");
+  for (uint32_t i = 0; i < 6; i++) {
+    if (i < CNT_A) V_ASSERT(same_op(recs[0].ops[i], oa[i]), "first instruction: operand replayed verbatim"); else V_ASSERT(recs[0].ops[i].is_none(), "first instruction: operands beyond its count are none");
+    if (i < CNT_B) V_ASSERT(same_op(recs[1].ops[i], ob[i]), "second instruction: operand replayed verbatim"); else V_ASSERT(recs[1].ops[i].is_none(), "second instruction: operands beyond its count are none (nothing leaks from the first)");
+  }
+  V_WITNESS("replay-two-insts");
+}
+HARNESS h_replay_ii_6_4() { replay_two_insts<6, 4>(); }
+HARNESS h_replay_ii_5_4() { replay_two_insts<5, 4>(); }
+HARNESS h_replay_ii_6_5() { replay_two_insts<6, 5>(); }
+HARNESS h_replay_ii_4_6() { replay_two_insts<4, 6>(); }
+HARNESS h_replay_ii_6_2() { replay_two_insts<6, 2>(); }
+
+// H1d (capture with validation): when strict validation of the intermediate representation refuses the instruction, nothing is
+// recorded and the whole one-shot state (options, extra register, inline comment) is cleared, exactly as an assembler does.
+static int vreports; static bool validator_refuses;
+static Error stub_validate(const BaseInst&, const Operand_*, size_t, ValidationFlags) noexcept { return validator_refuses ? make_error(Error::kInvalidInstruction) : Error::kOk; }
+ASMJIT_BEGIN_NAMESPACE
+Error BaseEmitter::_report_error(Error err, const char*) { vreports++; return err; }
+namespace EmitterUtils {   // the ASMJIT_NO_LOGGING branch of the real function (text formatting is C20)
+Error log_instruction_failed(BaseEmitter* self, Error err, InstId, InstOptions, const Operand_&, const Operand_&, const Operand_&, const Operand_*) { self->reset_state(); return self->report_error(err); }
+}
+ASMJIT_END_NAMESPACE
+static Raw<CodeHolder> code_store;
+HARNESS h_capture_validated() {
+  BaseBuilder b;
+  memset((void*)&code_store, 0, sizeof(code_store)); b._code = &code_store.v;
+  b._diagnostic_options = DiagnosticOptions::kValidateIntermediate; b._forced_inst_options = InstOptions::kReserved;   // as on_settings_updated() sets them
+  b._funcs.validate = stub_validate; validator_refuses = nondet_bool(); vreports = 0;
+  Operand_ o[3], ext[3]; o[0] = x86::zmm0; o[1] = x86::zmm1; o[2] = x86::eax; for (int i = 0; i < 3; i++) ext[i].reset();   // operand contents are H1a's subject
+  InstOptions opts = InstOptions(nondet_u32()) & ~InstOptions::kReserved;
+  RegOnly extra; extra._signature._bits = nondet_u32(); extra._id = nondet_u32();
+  b._inst_options = opts; b._extra_reg = extra; b._inline_comment = nondet_bool() ? "c" : nullptr;
+  Error e = b.BaseBuilder::_emit(nondet_u32(), o[0], o[1], o[2], ext);
+  V_ASSERT((e != Error::kOk) == validator_refuses, "the validator's verdict is the call's verdict");
+  V_ASSERT(uint32_t(b._inst_options) == 0 && b._extra_reg._signature._bits == 0 && b._extra_reg._id == 0 && b._inline_comment == nullptr, "one-shot state fully cleared whatever the verdict");
+  if (validator_refuses) { V_ASSERT(b._node_list.first() == nullptr && b._cursor == nullptr, "a refused instruction is not recorded"); V_ASSERT(vreports == 1, "refusal reported once"); V_WITNESS("refused"); }
+  else { V_ASSERT(b._node_list.first() != nullptr && b._node_list.first() == b._node_list.last(), "an accepted instruction is recorded once"); V_WITNESS("recorded"); }
+  b._code = nullptr;
+}
+
 // H3 (list editing): one edit from a well-formed list of L nodes with the cursor at position CUR (or no cursor) yields the
 // edited sequence with symmetric links, correct first/last/cursor and active flags; serialize_to then visits that sequence.
 static Raw<LabelNode> st_nodes[5];
